@@ -37,6 +37,10 @@ pub trait Subject: Sized {
     fn unordered() -> bool {
         false
     }
+    /// The type encodes only an item head, not a complete item (`Tag`).
+    fn head_only(&self) -> Option<Vec<u8>> {
+        None
+    }
 }
 
 pub fn small_len(rng: &mut Rng) -> usize {
@@ -852,6 +856,11 @@ impl Subject for Tag {
     }
     fn show(&self) -> String {
         format!("tag({})", self.as_u64())
+    }
+    fn head_only(&self) -> Option<Vec<u8>> {
+        let mut h = Vec::new();
+        vcore::refcbor::head(6, vcore::refcbor::min_width(self.as_u64()), self.as_u64(), &mut h);
+        Some(h)
     }
 }
 
